@@ -479,6 +479,19 @@ def trr_script_request(head, frames, log, total):
 def run_trr(ctx, runner, G, path, rng, tier, stats):
     head = int(G.TRR_HEAD_SIZE)
     quick = tier == "quick"
+    # the constants the instantiated theorem was proved for are the ones the running code uses
+    try:
+        import re
+        gen = open(os.path.join(common.COQ, "gen", "ParamsC13.v")).read()
+        par = {k: int(v) for k, v in re.findall(r"Definition (\w+) : Z := (-?\d+)\.", gen)}
+    except OSError:
+        par = {}
+    hs_single = gen_trr(rng, "<", False, 1, 1, ("x",))[1][0]["hs"]
+    hs_double = gen_trr(rng, "<", True, 1, 1, ("x",))[1][0]["hs"]
+    want = {"trr_head_size": head, "trr_header_bytes_single": hs_single, "trr_header_bytes_double": hs_double}
+    if par != want:
+        ctx.violation(f"coq/gen/ParamsC13.v {par} does not match the running gromacs.py / the TRR files of the harness {want}",
+                      {"obligation": "C13_trr_gromacs_constants is about the constants in use"}, False)
     files = []
     combos = [("<", False), (">", False), ("<", True), (">", True)]
     block_sets = [("box", "x", "v"), ("x",), ("box",), ("box", "vir", "pres", "x", "v", "f"), ("x", "v"), ("v",), ("box", "f"), ("vir", "x")]
@@ -621,10 +634,24 @@ def malformed_files(rng):
     add("lmp", 1, hdr.format(n=1).replace("0 1\n0 1\n0 1\n", "0 1\n0 1 2 3\n0 1\n") + "1 1 1 2 3 4 5 6 1\n", "lammps four-column box line")
     add("lmp", 1, hdr.format(n=1).replace("0 1\n0 1\n0 1\n", "0 1\n0 q\n0 1\n") + "1 1 1 2 3 4 5 6 1\n", "lammps non-numeric box value")
     add("lmp", 1, hdr.format(n=1) + "1 1 1 2 3 4 5 6 7\n", "lammps first and last id differ")
+    add("lmp", 1, hdr.format(n=1) + "1 1 1 2 3 4 5 1\n", "lammps eight tokens on an atom line")
+    add("lmp", 1, hdr.format(n=1) + "1 1 1 2 3 4 5 6 7 1\n", "lammps ten tokens on an atom line")
     add("lmp", 1, "\n" + hdr.format(n=1) + "1 1 1 2 3 4 5 6 1\n", "lammps leading lone newline")
     add("lmp", 1, hdr.format(n=1) + "1 1 1 2 3 4 5 6 1\n\n" + hdr.format(n=1) + "1 1 1 2 3 4 5 6 1\n", "lammps blank line between frames")
     add("lmp", 2, hdr.format(n=2) + "1 1 1 2 3 4 5 6 1\n1 1 6 5 4 3 2 1 1\n", "lammps duplicate id (one row never written)")
     return out
+
+
+def scratch():
+    """Scratch directory, on tmpfs when there is one (the file is rewritten for every poll)."""
+    import tempfile
+    shm = "/dev/shm"
+    if os.path.isdir(shm) and os.access(shm, os.W_OK):
+        try:
+            return tempfile.mkdtemp(prefix="infv_c13_", dir=shm)
+        except OSError:
+            pass
+    return common.scratch_dir("infv_c13_")
 
 
 def run(ctx):
@@ -637,7 +664,7 @@ def run(ctx):
 
     rng = ctx.rng
     quick = ctx.tier == "quick"
-    tmp = common.scratch_dir("infv_c13_")
+    tmp = scratch()
     path = os.path.join(tmp, "traj.dat")
     stats = {k: 0 for k in ("polls", "files", "in_domain_files", "generator_outside_domain", "compared", "disagreements",
                             "oracle_failures", "trr_raw", "trr_runs", "trr_compared")}
@@ -653,7 +680,7 @@ def run(ctx):
                 ctx.violation(f"C13: {kind} reader raised {type(ex).__name__} on a file that does not exist yet", {"kind": kind, "case": "missing file"}, True)
             ctx.count(("missing", kind), nontrivial=False)
 
-        variants = 1 if quick else 4
+        variants = 1 if quick else 6
         nrand = 8 if quick else 40
 
         # ---- xyz: every (atoms 1..12, frames 1..4), every byte cut (+ second poll on the whole file)
@@ -775,7 +802,7 @@ def replay(doc):
     rp = doc.get("replay", {})
     print(json.dumps({k: v for k, v in doc.items() if k != "replay"}, indent=1))
     kind = rp.get("kind")
-    tmp = common.scratch_dir("infv_c13r_")
+    tmp = scratch()
     path = os.path.join(tmp, "traj.dat")
     rc = 0
     try:
@@ -802,7 +829,8 @@ def replay(doc):
             yielded, exn, log = drive_trr(G, path, data, rp["script_sizes"])
             print("script sizes:", rp["script_sizes"], "\nexception:", exn, "\nframes handed out:", len(yielded),
                   "\nbad reads:", log["bad_reads"][:5], "\nevents:", log["events"][:40])
-            rc = 1 if (exn or log["bad_reads"]) else 0
+            want = rp.get("case", {}).get("frames")
+            rc = 1 if (exn or log["bad_reads"] or (want is not None and len(yielded) != want)) else 0
         elif kind == "trr_raw":
             data = bytes.fromhex(rp["file_hex"])
             c = rp["cut"]
